@@ -228,8 +228,29 @@ var verifDeviations = []any{nil, true, 0.0, -1.0, 1.5, 1e300, 184467440737095516
 	map[string]any{"type": "Link"}, map[string]any{"type": "Link", "href": 7.0}, map[string]any{"type": "Collection", "items": "https://offline.invalid/single"}, map[string]any{"type": "Create"},
 	map[string]any{"type": "Note", "id": "https://other.invalid/foreign", "content": "foreign"}, []any{map[string]any{"type": "Person", "name": "first without id"}, map[string]any{"type": "Person", "id": "https://offline.invalid/a2", "name": "second"}}}
 
+/* stress bodies: every nesting unit at the depth that keeps the document at a few kilobytes */
+func verifStressBodies() [][2]string {
+	bodies := [][2]string{}
+	inner := "<i>" + strings.Repeat("y", 120) + "</i> tail"
+	for _, unit := range []string{"<b>", "<b><i>", "<b><i><u><s><code><mark>", "<i><a href=\"https://x.example/y\">", "<blockquote>", "<blockquote>a<ul><li>",
+		"<blockquote><h3><ul><li><b><code>", "<ul><li>x<ul><li>y", "<h2><blockquote>q", "<div><ul><li><blockquote>z ", "<pre>", "<h6>", "<pre><code>", "<span>", "<unknownx>"} {
+		depth := 6000 / len(unit)
+		if depth > 1100 {
+			depth = 1100
+		}
+		bodies = append(bodies, [2]string{strings.Repeat(unit, depth) + inner, "text/html"})
+	}
+	bodies = append(bodies, [2]string{strings.Repeat("> ", 1000) + "deep quote", "text/markdown"},
+		[2]string{strings.Repeat("* ", 500) + "deep list\n\n" + strings.Repeat("**_", 300) + "styled" + strings.Repeat("_**", 300), "text/markdown"},
+		[2]string{strings.Repeat("> * ", 400) + "mixed", "text/markdown"},
+		[2]string{strings.Repeat("```\n", 500) + strings.Repeat("x", 3000), "text/gemini"},
+		[2]string{strings.Repeat("=> https://x.example/ l\n", 250), "text/gemini"},
+		[2]string{strings.Repeat("https://x.example/a ", 300), "text/plain"})
+	return bodies
+}
+
 func verifSystematicCount() int {
-	n := 0
+	n := len(verifStressBodies())
 	for _, sk := range verifSkeletons {
 		n += (len(sk) + 3) * len(verifDeviations)
 	}
@@ -237,6 +258,16 @@ func verifSystematicCount() int {
 }
 
 func verifSystematic(index int) (map[string]any, int, string) {
+	if stress := verifStressBodies(); index < len(stress) {
+		o := map[string]any{}
+		for k, v := range verifSkeletons[0] {
+			o[k] = v
+		}
+		o["content"], o["mediaType"] = stress[index][0], stress[index][1]
+		return o, 0, "stress body " + verifkit.Clip(stress[index][0], 50) + fmt.Sprintf(" (%d bytes, %s)", len(stress[index][0]), stress[index][1])
+	} else {
+		index -= len(stress)
+	}
 	extraKeys := []string{"height", "width", "href"}
 	for kind, sk := range verifSkeletons {
 		keys := []string{}
